@@ -15,11 +15,11 @@ enum SOp {
   Complete,
 }
 
-fn sop() -> BoxedStrategy<SOp> {
+fn sop(nobs: usize, next_weight: u32) -> BoxedStrategy<SOp> {
   prop_oneof![
-    3 => (0usize..3).prop_map(SOp::Sub),
-    2 => (0usize..3).prop_map(SOp::Unsub),
-    4 => (0i64..3).prop_map(SOp::Next),
+    3 => (0usize..nobs).prop_map(SOp::Sub),
+    2 => (0usize..nobs).prop_map(SOp::Unsub),
+    next_weight => (0i64..3).prop_map(SOp::Next),
     1 => Just(SOp::Error),
     1 => Just(SOp::Complete),
   ]
@@ -27,19 +27,34 @@ fn sop() -> BoxedStrategy<SOp> {
 }
 
 fn c10_strategy(ctx: &Ctx) -> BoxedStrategy<SeqCase> {
-  let max = ctx.tier.pick(12, 20);
+  c10_strategy_sized(ctx.tier.pick(12, 20), 3, 3, 4)
+}
+
+/// histories of tens to a few hundred calls, up to 40 observers: sizes at which a container
+/// re-allocates, a batch boundary is crossed, a serial number could wrap
+fn c10_large_strategy(_ctx: &Ctx) -> BoxedStrategy<SeqCase> {
+  prop_oneof![
+    // long histories, few observers (a long stored history before a late subscriber)
+    c10_strategy_sized(160, 3, 70, 60),
+    // many observers
+    c10_strategy_sized(120, 40, 8, 6),
+  ]
+  .boxed()
+}
+
+fn c10_strategy_sized(max: usize, nobs: usize, at_max: usize, next_weight: u32) -> BoxedStrategy<SeqCase> {
   let kinds = prop::sample::select(vec![HotKind::Subject, HotKind::Behavior(9), HotKind::Replay, HotKind::Async]);
   // optionally observer 0 subscribes observer 2 from inside its n-th next callback
   // (or from inside its terminal callback: the subject is mid-way through its terminal then)
-  let nested = prop::option::weighted(0.3, prop_oneof![3 => 0usize..3, 1 => Just(AT_TERMINAL)]);
+  let nested = prop::option::weighted(0.3, prop_oneof![3 => 0usize..at_max, 1 => Just(AT_TERMINAL)]);
   // optionally an observer pushes an item into the subject from inside its n-th next
   // callback (re-entrant next: "once each" also holds for it)
-  let reemit = prop::option::weighted(0.3, (0usize..3, 0usize..3, 3i64..5));
-  (kinds, prop::collection::vec(sop(), 1..=max), any::<bool>(), nested, reemit, 0u64..4)
-    .prop_map(|(kind, ops, via_op, nested, reemit, hash_seed)| {
+  let reemit = prop::option::weighted(0.3, (0usize..3, 0usize..at_max, 3i64..5));
+  (kinds, prop::collection::vec(sop(nobs, next_weight), 1..=max), any::<bool>(), nested, reemit, 0u64..4)
+    .prop_map(move |(kind, ops, via_op, nested, reemit, hash_seed)| {
       let mut actions = Vec::new();
       let mut terminated = false;
-      let mut subscribed = [false; 3];
+      let mut subscribed = vec![false; nobs];
       for op in ops {
         // what may follow a terminal is only fixed for some operations (DESIGN.md, C10)
         let allowed_after = |op: &SOp| match (&kind, op) {
@@ -86,15 +101,12 @@ fn c10_strategy(ctx: &Ctx) -> BoxedStrategy<SeqCase> {
           hot_illformed: false,
           conn: None, conn_take: None,
           recorders: {
-            let mut rs = vec![
-              match (nested, &kind) {
-                // (an AsyncSubject observer only hears from the subject on completion)
-                (Some(at), k) if *k != HotKind::Async => vec![Reaction { at, what: React::Subscribe(2) }],
-                _ => vec![],
-              },
-              vec![],
-              vec![],
-            ];
+            let mut rs = vec![vec![]; nobs];
+            rs[0] = match (nested, &kind) {
+              // (an AsyncSubject observer only hears from the subject on completion)
+              (Some(at), k) if *k != HotKind::Async => vec![Reaction { at, what: React::Subscribe(2) }],
+              _ => vec![],
+            };
             if let (Some((k, at, v)), false, true) = (reemit, kind == HotKind::Async, nested.is_none()) {
               rs[k].push(Reaction { at, what: React::Emit(0, Ev::N(v)) });
             }
@@ -176,14 +188,38 @@ fn c10_check(_ctx: &Ctx, c: &SeqCase) -> Report {
   rep
 }
 
+fn c10_large_check(ctx: &Ctx, c: &SeqCase) -> Report {
+  let mut rep = c10_check(ctx, c);
+  let (mut stored, mut late) = (0usize, false);
+  for a in &c.case.actions {
+    match a {
+      Action::Emit(_, Ev::N(_)) => stored += 1,
+      Action::Subscribe(_) if stored >= 32 => late = true,
+      _ => {}
+    }
+  }
+  let observers = c.case.actions.iter().filter(|a| matches!(a, Action::Subscribe(_))).count();
+  if late {
+    rep.classes.push("subscribe-after->=32-items".into());
+  }
+  if observers >= 10 {
+    rep.classes.push("observers>=10".into());
+  }
+  rep.nontrivial = rep.nontrivial && (late || observers >= 10);
+  rep
+}
+
 pub fn properties() -> Vec<Property> {
   vec![Property {
     id: "C10",
-    rule: "cases = call histories of length <= 12 (thorough 20) over {subscribe_i, unsubscribe_i, next(v), error, complete} with 3 observers and 3 values on Subject / BehaviorSubject / ReplaySubject / AsyncSubject, observers attached directly or through map; oracle = per-observer traces and the registered-observer count after every call equal the reference state machine; non-trivial = a subscribe after a next, an unsubscribe followed by a next, or any call after a terminal",
+    rule: "cases = call histories of length <= 12 (thorough 20) over {subscribe_i, unsubscribe_i, next(v), error, complete} with 3 observers and 3 values on Subject / BehaviorSubject / ReplaySubject / AsyncSubject, observers attached directly or through map; oracle = per-observer traces and the registered-observer count after every call equal the reference state machine; non-trivial = a subscribe after a next, an unsubscribe followed by a next, or any call after a terminal; large: histories of up to 160 calls with 3 observers (reactions at callback positions up to 70) or up to 120 calls with 40 observers, non-trivial = additionally a subscribe after >= 32 items or >= 10 observers",
     assumptions: vec![
       "after a terminal only calls whose outcome the property fixes are generated (Subject: everything; Behavior/Replay: subscribe, unsubscribe; Async: unsubscribe)",
       "observer count read through an accessor appended to the generated copy (verif_observer_count)",
     ],
-    subs: vec![mk_sub("histories", (2500, 50_000), c10_strategy, c10_check)],
+    subs: vec![
+      mk_sub("histories", (2500, 50_000), c10_strategy, c10_check),
+      mk_sub("large", (200, 4_000), c10_large_strategy, c10_large_check),
+    ],
   }]
 }
